@@ -117,6 +117,16 @@ def run_tzmon(env, profile="release", scale=1.0, opts=None, replay=None, tier=No
             if "TZMON-ALLOC-CAP" in se:
                 # allocation above the hard cap: the allocator aborted the process on purpose
                 return {"name": lname, "profile": profile, "evaluations": 0, "violations": [{"what": "allocation request above the hard cap (process aborted by the counting allocator)", "input": "see stderr", "expected": "allocation bounded by a small multiple of the input", "observed": se.strip()[-300:], "signature": "alloc-cap", "workload": 0, "index": 0, "seed": env.seed}], "replay_spec": None}
+            if rc == 86 and "TZMON-HANG" in se:
+                import re
+                m = re.search(r"TZMON-HANG workload=(\d+) case=(\d+) cpu_s=(\d+) limit_s=(\d+)", se)
+                wl_, idx_, cpu_, lim_ = (int(x) for x in m.groups()) if m else (0, 0, 0, 0)
+                what = "unbounded work: a single monitored case had consumed %d s of CPU time (limit %d s) without returning" % (cpu_, lim_)
+                v = {"what": what, "input": "workload %d case %d (replay: ./check %s --replay <this file>)" % (wl_, idx_, prop), "expected": "every call returns (CPU time of a case is milliseconds)", "observed": "still running; process ended by the hang monitor", "signature": "hang | workload %d case %d" % (wl_, idx_), "workload": wl_, "index": idx_, "seed": env.seed}
+                if prop == "C07":
+                    return {"name": lname, "profile": profile, "evaluations": 0, "violations": [v], "replay_spec": {"kind": "tzmon", "profile": profile, "opts": opts or {}, "tier": tier}}
+                # for the other properties a call that does not return is not a wrong answer they describe: not their verdict
+                raise LayerInconclusive("a monitored case does not return (the hang monitor ended the process): workload %d case %d, %d s of CPU time - see C07" % (wl_, idx_, cpu_))
             raise LayerInconclusive("tzmon exited with status %s: %s" % (rc, se.strip()[-400:]))
         with open(out) as f:
             doc = json.load(f)
@@ -724,7 +734,7 @@ def valgrind_layer(env, scale, prop=None):
         fd, log = tempfile.mkstemp(prefix="memcheck-", suffix=".log", dir=env.work)
         os.close(fd)
         try:
-            r = run_tzmon(env, profile="release", binary=binary, scale=scale, prop=prop, threads=4, name="valgrind-memcheck", wrapper=["valgrind", "--quiet", "--error-exitcode=0", "--errors-for-leak-kinds=none", "--undef-value-errors=yes", "--num-callers=40", "--log-file=" + log], timeout=6000)
+            r = run_tzmon(env, profile="release", binary=binary, scale=scale, prop=prop, threads=4, name="valgrind-memcheck", wrapper=["valgrind", "--quiet", "--error-exitcode=0", "--errors-for-leak-kinds=none", "--undef-value-errors=yes", "--num-callers=40", "--log-file=" + log], timeout=6000, extra_env={"TZMON_HANG_CPU_S": "3000"})
             text = open(log, errors="replace").read()
         finally:
             if os.path.exists(log):
